@@ -985,6 +985,20 @@ class _Sub(ast.NodeTransformer):
         return n
 
 
+def _read_first_and_once(body, p):
+    reads = [n for st in body for n in ast.walk(st) if isinstance(n, ast.Name) and n.id == p and isinstance(n.ctx, ast.Load)]
+    if len(reads) != 1 or not body:
+        return False
+    st0 = body[0]
+    if isinstance(st0, (ast.For, ast.AsyncFor)):
+        return st0.iter is reads[0]
+    if isinstance(st0, (ast.Assign, ast.Return, ast.Expr)) and st0.value is reads[0]:
+        return True
+    if isinstance(st0, (ast.If, ast.While)) and st0.test is reads[0]:
+        return True
+    return False
+
+
 def _instantiate(h, binding, caller, is_method):
     """-> (prologue statements binding parameters, body copy with substituted parameters) or None"""
     body = _to_tail_form(_copy.deepcopy(_strip_doc(h.body)))
@@ -992,6 +1006,9 @@ def _instantiate(h, binding, caller, is_method):
     subst, pro = {}, []
     for p, a in binding:
         if p not in stored and isinstance(a, (ast.Name, ast.Constant)):
+            subst[p] = a
+        elif p not in stored and _plain(a) and _read_first_and_once(body, p):
+            # an attribute chain handed to a parameter that the helper reads exactly once, as the first thing it evaluates: same value at the same moment
             subst[p] = a
         else:
             pro.append(ast.Assign(targets=[ast.Name(id=p, ctx=ast.Store())], value=_copy.deepcopy(a)))
@@ -1236,10 +1253,48 @@ def inline_new_helpers(tree, known):
         # a helper that only names its result before returning it is an expression: fold its single-use temporaries first
         for h in new:
             _undo_new_temps(h, set(params_of(h)))
+        # the helper is also what subclasses of c (in this module) call as self.h(..), unless one of them - or a class in between - defines the name itself
+        by_name = dict((k.name, k) for k in classes)
+
+        def _inherits_from(k, base, seen=()):
+            for b in k.bases:
+                bn = b.id if isinstance(b, ast.Name) else None
+                if bn == base.name:
+                    return True
+                if bn in by_name and bn not in seen and _inherits_from(by_name[bn], base, seen + (bn,)):
+                    return True
+            return False
+
+        def _redefines(k, name, base, seen=()):
+            # does k, or a class between k and base, define `name`?
+            if any(isinstance(x, (ast.FunctionDef, ast.AsyncFunctionDef)) and x.name == name for x in k.body) or \
+                    any(isinstance(x, ast.Assign) and any(isinstance(t, ast.Name) and t.id == name for t in x.targets) for x in k.body):
+                return True
+            for b in k.bases:
+                bn = b.id if isinstance(b, ast.Name) else None
+                if bn in by_name and bn != base.name and bn not in seen and _inherits_from(by_name[bn], base) and _redefines(by_name[bn], name, base, seen + (bn,)):
+                    return True
+            return False
+        targets = list(meths)
+        single_base = lambda k: sum(1 for b in k.bases if isinstance(b, ast.Name) and b.id in by_name) == len(k.bases)
+        for k in classes:
+            if k is not c and _inherits_from(k, c) and single_base(k):
+                for h in new:
+                    if not _redefines(k, h.name, c):
+                        pass
+                sub_meths = [f for f in k.body if isinstance(f, (ast.FunctionDef, ast.AsyncFunctionDef))]
+                for f in sub_meths:
+                    f._owner_class = k.name
+                targets.extend((f, k) for f in sub_meths)
         for _round in range(3):
             again = False
             for h in new:
-                for f in meths:
+                for f in targets:
+                    k = None
+                    if isinstance(f, tuple):
+                        f, k = f
+                        if _redefines(k, h.name, c):
+                            continue
                     if f is not h and _inline_into(f, h, True):
                         again = True
                         count += 1
